@@ -19,6 +19,7 @@ import (
 	"fmt"
 	"math/big"
 	"reflect"
+	"runtime"
 	"sort"
 	"strconv"
 	"strings"
@@ -1183,10 +1184,120 @@ func c23Mutate(g *Gen, b []byte) []byte {
 	return b
 }
 
+// long-form header (tag base+55+k, k size bytes) declaring n
+func c23LongHeader(base int, n uint64, pad int) []byte {
+	var sz []byte
+	for v := n; v > 0; v >>= 8 {
+		sz = append([]byte{byte(v)}, sz...)
+	}
+	if len(sz) == 0 {
+		sz = []byte{0}
+	}
+	for ; pad > 0 && len(sz) < 8; pad-- {
+		sz = append([]byte{0}, sz...)
+	}
+	return append([]byte{byte(base + 55 + len(sz))}, sz...)
+}
+
+// c23NestedLie: depth 0..3 list wrappers (slice / struct / array / pointer-to-struct / map
+// value) around a byte-string-read leaf. Every wrapper gets a long-form list header whose
+// declared size is far beyond the input (2^20 .. 2^62, MaxInt); the leaf (or an extra inner
+// list) gets a long-form header whose size is within the enclosing claim but beyond the real
+// input. A correct reader rejects without allocating; sizes are chosen either moderately
+// large (a missing bound shows as allocation) or above 2^48 (shows as makeslice panic).
+func c23NestedLie(g *Gen) (*c23Ty, []byte) {
+	leaves := []*c23Ty{{K: 'B'}, {K: 's'}, {K: 'A', N: 4}, {K: 'u', N: 64}, {K: 'i', N: 32}, {K: 'b'},
+		{K: 'P', E: []*c23Ty{{K: 'Z'}}}, {K: 'P', E: []*c23Ty{{K: 'H'}}}, {K: 'P', E: []*c23Ty{{K: 's'}}}}
+	ty := leaves[g.Intn(len(leaves))]
+	if g.Intn(2) == 0 {
+		ty = &c23Ty{K: byte(g.Pick('B', 's'))}
+	}
+	depth := g.Intn(4)
+	// claims from outermost to innermost, non increasing
+	outer := []uint64{1 << 20, 1 << 24, 1<<31 - 1, 1 << 31, 1 << 32, 1 << 40, 1 << 48, 1 << 56, 1 << 62, 1<<63 - 1}[g.Intn(10)]
+	outer += uint64(g.Intn(3))
+	claims := make([]uint64, depth)
+	c := outer
+	for i := 0; i < depth; i++ {
+		claims[i] = c
+		if c > 64 && g.Intn(2) == 0 {
+			c = c - 9 - uint64(g.Intn(8))
+		} else if c > 1<<21 && g.Intn(2) == 0 {
+			c = c >> uint(1+g.Intn(8))
+		}
+	}
+	// leaf size: within the innermost claim (minus header room) but beyond the input
+	lim := c
+	if depth > 0 && lim > 16 {
+		lim -= 9
+	}
+	var leaf uint64
+	switch g.Intn(4) {
+	case 0:
+		leaf = lim
+	case 1:
+		leaf = uint64(g.Pick(1<<20+1, 1<<24, 1<<25, 1<<27, 1<<28))
+	case 2:
+		leaf = uint64(1)<<uint(48+g.Intn(15)) + uint64(g.Intn(2))
+	default:
+		leaf = lim >> uint(g.Intn(4))
+	}
+	if leaf > lim {
+		leaf = lim
+	}
+	if leaf < 100 {
+		leaf = 100
+	}
+	// sizes between what the machine can really allocate and the runtime's makeslice limit
+	// (2^48) would kill the harness process with an unrecoverable out-of-memory error if the
+	// bound were missing; keep to sizes that show up as an allocation or as a panic
+	if leaf > 1<<28 && leaf <= 1<<48 {
+		leaf = uint64(1) << uint(g.Pick(26, 27, 28))
+	}
+	// content: prefixes for the wrappers (innermost last)
+	var pre [][]byte
+	for i := depth - 1; i >= 0; i-- {
+		switch g.Intn(6) {
+		case 0:
+			ty = &c23Ty{K: 'L', E: []*c23Ty{ty}}
+			pre = append([][]byte{nil}, pre...)
+		case 1:
+			ty = &c23Ty{K: 'S', N: 1, E: []*c23Ty{ty}}
+			pre = append([][]byte{nil}, pre...)
+		case 2:
+			// struct with a leading scalar field (present in the input)
+			ty = &c23Ty{K: 'S', N: 3, E: []*c23Ty{{K: 'u', N: 8}, ty, {K: 's'}}}
+			pre = append([][]byte{{byte(g.Intn(0x80))}}, pre...)
+		case 3:
+			ty = &c23Ty{K: 'R', N: 2, E: []*c23Ty{ty}}
+			pre = append([][]byte{nil}, pre...)
+		case 4:
+			ty = &c23Ty{K: 'P', E: []*c23Ty{{K: 'S', N: 2, E: []*c23Ty{ty, {K: 'B'}}}}}
+			pre = append([][]byte{nil}, pre...)
+		default:
+			ty = &c23Ty{K: 'M', E: []*c23Ty{{K: 's'}, ty}}
+			pre = append([][]byte{{0x81, byte(0x80 + g.Intn(0x80))}}, pre...)
+		}
+	}
+	var b []byte
+	for i := 0; i < depth; i++ {
+		b = append(b, c23LongHeader(0xc0, claims[i], g.Intn(3)/2)...)
+		b = append(b, pre[i]...)
+	}
+	if g.Intn(5) == 0 {
+		// the innermost lie is a list header (wrong kind for a string leaf, right for others)
+		b = append(b, c23LongHeader(0xc0, leaf, 0)...)
+	} else {
+		b = append(b, c23LongHeader(0x80, leaf, g.Intn(3)/2)...)
+	}
+	b = append(b, g.Bytes(g.Intn(9))...)
+	return ty, b
+}
+
 func c23Gen(g *Gen) {
 	for i := 0; i < g.N; i++ {
 		depth := g.Intn(4)
-		switch c := g.Intn(20); {
+		switch c := g.Intn(22); {
 		case c < 7:
 			// valid typed value through marshal (+ unmarshal in the oracle)
 			ty := c23GenTy(g, depth, true, false)
@@ -1251,6 +1362,11 @@ func c23Gen(g *Gen) {
 				}
 				g.Emit("ovf i%d i%d", v, w)
 			}
+		case c >= 20:
+			// nested size lies: huge declared list size(s), inside a long-form string/list
+			// header whose size fits the enclosing claim but not the real input
+			ty, b := c23NestedLie(g)
+			g.Emit("dec %s %s", hx(b), ty)
 		default:
 			b := (&c23Fuzz{g: g, rate: 6}).enc(c23GenTy(g, depth, false, false), 0)
 			if g.Intn(3) == 0 {
@@ -1458,7 +1574,16 @@ func (c23Runner) step(t []string, o *Oracle) string {
 		}
 		gt := ty.goType()
 		v := reflect.New(gt)
+		var ms0, ms1 runtime.MemStats
+		runtime.ReadMemStats(&ms0)
 		rem, err := codec.RLP.UnmarshalFromBytes(b, v.Interface())
+		runtime.ReadMemStats(&ms1)
+		// sizes beyond the input must be rejected before anything of that size is allocated
+		if alloc := ms1.TotalAlloc - ms0.TotalAlloc; len(b) < 64 {
+			o.Check(alloc <= 16<<20, "decode-allocates-beyond-input", "decoding %d input bytes %x into %s allocated %d bytes", len(b), b, ty, alloc)
+		} else {
+			o.Check(alloc <= 16<<20+uint64(len(b))*4096, "decode-allocates-beyond-input", "decoding %d input bytes into %s allocated %d bytes", len(b), ty, alloc)
+		}
 		if t[0] == "ovf" {
 			// independent expectation: accepted iff the value fits the target width
 			val, _ := new(big.Int).SetString(t[1][1:], 10)
